@@ -470,11 +470,16 @@ pub fn claims(cex: &Value) -> Result<String, String> {
           v.as_object_mut().unwrap().remove(*name);
         }
       }
-      for issuer_as_url in [false, true] {
+      for issuer_form in [0u8, 1, 2] {
+        let issuer_as_url = issuer_form == 1;
         for subject_id in [true, false] {
           let mut v = v.clone();
           if issuer_as_url {
             v["issuer"] = serde_json::Value::String(ISSUER.into());
+          }
+          if issuer_form == 2 {
+            // issuer in object form carrying nothing but its id
+            v["issuer"] = serde_json::json!({ "id": ISSUER });
           }
           if !subject_id {
             v["credentialSubject"].as_object_mut().unwrap().remove("id");
